@@ -1,11 +1,11 @@
 #!/bin/bash
 # tools/harmless_sweep.sh [H<k>…] — apply each behaviour-preserving rewrite under seeded/harmless/ to
-# /repo, run every quick check, undo it; writes seeded/harmless/RESULT.md. /repo must be clean.
+# /repo, run every quick check (or those named in PROPS), undo it; writes seeded/harmless/RESULT.md. /repo must be clean.
 set -u
 cd /verif
 ids=("$@")
 [ ${#ids[@]} -gt 0 ] || ids=($(ls seeded/harmless | grep '^H' | sort -V))
-props=$(python3 -c "import json;print(' '.join(c['property_id'] for c in json.load(open('/verif/MANIFEST.json'))['checks']))")
+props=${PROPS:-$(python3 -c "import json;print(' '.join(c['property_id'] for c in json.load(open('/verif/MANIFEST.json'))['checks']))")}
 res=seeded/harmless/RESULT.md
 [ -f "$res" ] || echo "| rewrite | checks run | exit 0 | alarms |" > "$res"
 for id in "${ids[@]}"; do
